@@ -80,3 +80,69 @@ E("C14", "E2-mid-rewritten", (EX, "        return (self.ask_price + self.bid_pri
 E("C14", "E3-acq-reordered", (EX, "        if quantity < 0:\n            return self.bid_price\n        elif quantity > 0:\n            return self.ask_price\n        elif quantity == 0:\n            return self.mid_price", "        if quantity == 0:\n            return self.mid_price\n        elif 0 < quantity:\n            return self.ask_price\n        elif quantity < 0:\n            return self.bid_price"))
 E("C14", "E4-update-from-locals", (EX, "        self.bid_price = event.bid_price\n        self.ask_price = event.ask_price\n", "        bid, ask = event.bid_price, event.ask_price\n        self.ask_price = ask\n        self.bid_price = bid\n"))
 E("C14", "E5-book-local-renamed", (EX, "        book = self[event.contract]\n        if book.is_alive:\n            book.update(event)", "        lob = self[event.contract]\n        if not lob.is_alive:\n            pass\n        else:\n            lob.update(event)"))
+
+# ------------------------------------------------------------------ C17
+M("C17", "M1-no-guard", (SP, "        if action not in self:\n            raise ValueError(\n                \"This action does not belong to the action observation_space {}: {}\"\n                \"\".format(self.__class__.__name__, action)\n            )\n", ""), "S1.membership-raise")
+M("C17", "M2-wide-except", (EN, "        except EndOfEpisodeError:\n            info = dict()", "        except (EndOfEpisodeError, ValueError):\n            info = dict()"), "S2.rebalance-errors-not-swallowed")
+M("C17", "M3-contains-not-any", (SP, "            and np.all(x >= self.low)\n", "            and not np.any(x < self.low)\n"), "S3.box-contains-low")
+M("C17", "M4-no-shape-test", (SP, "            x.shape == self.shape\n            and np.all(x >= self.low)", "            np.all(x >= self.low)"), "S3.box-contains-shape")
+M("C17", "M5-allocation-scaled", (SP, "        method simply returns the input (action).\"\"\"\n        return action", "        method simply returns the input (action).\"\"\"\n        return action * 0.5"), "S4.box-allocation-is-action")
+E("C17", "E4-request-in-try", (EN, "        rebalancing = self.action_space.make_rebalancing_request(action, self.now(), self.broker)\n        try:\n            self.broker.rebalance(rebalancing)", "        try:\n            rebalancing = self.action_space.make_rebalancing_request(action, self.now(), self.broker)\n            self.broker.rebalance(rebalancing)"))
+M("C17", "M7-allocation-before-test", (SP, "        if action not in self:\n            raise ValueError(", "        allocation = self._make_allocation(action, broker)\n        if action not in self:\n            raise ValueError("), "S1")
+M("C17", "M8-discrete-off-by-one", (SP, "        return self._allocations[action]", "        return self._allocations[action - 1]"), "S4.discrete-allocation-indexed")
+M("C17", "M9-wrong-measure", (SP, "            measure='weight' if self._as_weights else 'nr-contracts',", "            measure='nr-contracts' if self._as_weights else 'weight',"), "S4.request-measure")
+M("C17", "M10-cash-not-dropped", (AL, "            if not isinstance(contract, Cash)\n", ""), "S5.drops-cash")
+M("C17", "M11-base-contains", (SP, "    def null_action(self):\n        \"\"\"Used to fill the deque", "    def contains(self, x):\n        return True\n\n    def null_action(self):\n        \"\"\"Used to fill the deque"), "S3.base-does-not-shadow")
+M("C17", "M12-high-strict-dropped", (SP, "            and np.all(x <= self.high)\n", ""), "S3.box-contains-high")
+M("C17", "M13-keys-values-swapped-n", (SP, "        Discrete.__init__(self, n=len(allocations))", "        Discrete.__init__(self, n=len(allocations) + 1)"), "S4.discrete-size")
+M("C17", "M14-validate-submitted-not-due", (EN, "        self._queue_actions.appendleft(action)\n        action = self._queue_actions.pop()\n        self._process_latent_events()\n        rebalancing = self.action_space.make_rebalancing_request(action, self.now(), self.broker)",
+                                           "        self._queue_actions.appendleft(action)\n        due = self._queue_actions.pop()\n        self._process_latent_events()\n        rebalancing = self.action_space.make_rebalancing_request(action, self.now(), self.broker)\n        action = due"), "S2.validates-due-action")
+M("C17", "M15-rebalancing-margin-lost", (RB, "        self.margin = margin\n", "        self.margin = 0.0\n"), "S4.rebalancing-margin")
+E("C17", "E1-positive-form", (SP, "        if action not in self:\n            raise ValueError(\n                \"This action does not belong to the action observation_space {}: {}\"\n                \"\".format(self.__class__.__name__, action)\n            )\n        return Rebalancing(",
+                              "        if not (action in self):\n            raise ValueError(\n                \"This action does not belong to the action observation_space {}: {}\"\n                \"\".format(self.__class__.__name__, action)\n            )\n        return Rebalancing("))
+E("C17", "E2-bounds-swapped-sides", (SP, "            and np.all(x >= self.low)\n            and np.all(x <= self.high)", "            and np.all(self.high >= x)\n            and np.all(self.low <= x)"))
+E("C17", "E3-request-local", (SP, "        return Rebalancing(\n            time=time,\n            contracts=self.contracts,\n            allocation=self._make_allocation(action, broker),", "        allocation = self._make_allocation(action, broker)\n        return Rebalancing(\n            time=time,\n            contracts=self.contracts,\n            allocation=allocation,"))
+
+# ------------------------------------------------------------------ C12
+M("C12", "M1-and-to-or", (RB, "            if abs(weights[contract]) < self.margin and contract in self.allocation:", "            if abs(weights[contract]) < self.margin or contract in self.allocation:"), "S1")
+M("C12", "M2-membership-imbalance", (RB, "            if abs(weights[contract]) < self.margin and contract in self.allocation:", "            if abs(weights[contract]) < self.margin and contract in imbalance:"), "S2.exempts-untargeted")
+M("C12", "M3-int-to-round", (RB, "                quantity = int(quantity)", "                quantity = round(quantity)"), "S3.truncation-family")
+M("C12", "M4-threshold-lte", (RB, "            if abs(weights[contract]) < self.margin and contract in self.allocation:", "            if abs(weights[contract]) <= self.margin and contract in self.allocation:"), "S1.threshold-strict")
+M("C12", "M5-zero-filter-dropped", (AL, "            if not isinstance(contract, Cash)\n            if value != 0\n", "            if not isinstance(contract, Cash)\n"), "S5.drops-zero")
+M("C12", "M6-F8-regression", (RB, "                if quantity == 0:\n                    # Imbalance is smaller than one lot: nothing to trade.\n                    continue\n", ""), "S4.nonzero-into-trade")
+M("C12", "M7-no-membership", (RB, "            if abs(weights[contract]) < self.margin and contract in self.allocation:", "            if abs(weights[contract]) < self.margin:"), "S1")
+M("C12", "M9-floor-div", [(RB, "from typing import Sequence, List\n", "from typing import Sequence, List\nimport math\n"), (RB, "                quantity = int(quantity)", "                quantity = math.floor(quantity)")], "S3.truncation-family")
+M("C12", "M10-trunc-always", (RB, "            if not self.fractional:\n                # Fractional shares are not supported. Round to smallest digit.\n                quantity = int(quantity)\n                if quantity == 0:\n                    # Imbalance is smaller than one lot: nothing to trade.\n                    continue\n",
+                              "            quantity = int(quantity)\n            if quantity == 0:\n                continue\n"), "S3.only-when-not-fractional")
+M("C12", "M11-no-abs", (RB, "            if abs(weights[contract]) < self.margin and contract in self.allocation:", "            if weights[contract] < self.margin and contract in self.allocation:"), "S1.threshold-strict")
+M("C12", "M12-target-weight-tested", (RB, "            if abs(weights[contract]) < self.margin and contract in self.allocation:", "            if abs(self.allocation.get(contract, 0)) < self.margin and contract in self.allocation:"), "S1")
+M("C12", "M13-trade-no-zero-guard", (TR, "        if quantity == 0:\n            raise ValueError(\"Quantity for contract {} is zero.\".format(contract))\n", ""), "S5.trade-rejects-zero-quantity")
+M("C12", "M14-sub-returns-dict", (AL, "        return cls(mapping)", "        return mapping"), "S4.sub-refilters")
+M("C12", "M15-extra-skip-small", (RB, "            trade = Trade(\n", "            if abs(quantity) < 1e-3:\n                continue\n            trade = Trade(\n"), "S1.no-other-skip")
+M("C12", "M16-zero-skip-after-threshold-only-fractional", (RB, "                if quantity == 0:\n                    # Imbalance is smaller than one lot: nothing to trade.\n                    continue\n", "                if quantity == 0 and contract in self.allocation:\n                    continue\n"), "S4")
+E("C12", "E1-demorgan", (RB, "            if abs(weights[contract]) < self.margin and contract in self.allocation:\n                # Imbalance weight is smaller than margin. Skip to save costs.\n                continue\n            trade = Trade(\n                time=self.time,\n                contract=contract,\n                quantity=quantity,\n                bid_price=broker.exchange[contract].bid_price,\n                ask_price=broker.exchange[contract].ask_price,\n                broker_fees=broker.fees,\n            )\n            trades.append(trade)",
+                         "            if not (abs(weights[contract]) >= self.margin or contract not in self.allocation):\n                continue\n            trade = Trade(\n                time=self.time,\n                contract=contract,\n                quantity=quantity,\n                bid_price=broker.exchange[contract].bid_price,\n                ask_price=broker.exchange[contract].ask_price,\n                broker_fees=broker.fees,\n            )\n            trades.append(trade)"))
+E("C12", "E2-math-trunc", [(RB, "from typing import Sequence, List\n", "from typing import Sequence, List\nimport math\n"), (RB, "                quantity = int(quantity)", "                quantity = math.trunc(quantity)")])
+E("C12", "E3-margin-first", (RB, "            if abs(weights[contract]) < self.margin and contract in self.allocation:", "            if contract in self.allocation and self.margin > abs(weights[contract]):"))
+
+# ------------------------------------------------------------------ C13
+M("C13", "M1-nan-guard-after-arith", (BR, "                if np.isnan(liq_price):\n                    raise ValueError(\n                        \"Missing liquidation transaction_price for {}.\".format(contract)\n                    )\n                if kind == \"notional\":\n                    value = quantity * liq_price * contract.multiplier\n",
+      "                if kind == \"notional\":\n                    value = quantity * liq_price * contract.multiplier\n                    if np.isnan(liq_price) and kind != \"notional\":\n                        raise ValueError(\n                            \"Missing liquidation transaction_price for {}.\".format(contract)\n                        )\n"), "S1")
+M("C13", "M2-zero-branch-reads-book", (BR, "            if quantity == 0:\n                value = 0.0\n            else:\n                order_book = self.exchange[contract]\n", "            order_book = self.exchange[contract]\n            if quantity == 0:\n                value = 0.0\n            else:\n"), "S2.flat-needs-no-quote")
+M("C13", "M3-generator", (RB, "            trades.append(trade)\n        return trades", "            yield trade"), "S4")
+M("C13", "M4-transact-in-make-trades", (RB, "            trades.append(trade)\n        return trades", "            trades.append(trade)\n            broker.transact(trade)\n        return trades"), "S5.transact-callers")
+M("C13", "M5-checkpoint-before-loop", (BR, "        for trade in rebalancing.trades:\n            self.transact(trade)\n        rebalancing.context_post = self.context()\n        self.track_record._checkpoint(rebalancing)", "        self.track_record._checkpoint(rebalancing)\n        for trade in rebalancing.trades:\n            self.transact(trade)\n        rebalancing.context_post = self.context()"), "S5.checkpoint-last")
+M("C13", "M6-nan-raise-only-liquidation", (BR, "                if np.isnan(liq_price):\n                    raise ValueError(", "                if np.isnan(liq_price) and kind == \"liquidation\":\n                    raise ValueError("), "S1.nan-raise-unconditional")
+M("C13", "M7-nan-valued-zero", (BR, "                if np.isnan(liq_price):\n                    raise ValueError(\n                        \"Missing liquidation transaction_price for {}.\".format(contract)\n                    )\n", "                if np.isnan(liq_price):\n                    liq_price = 0.0\n"), "S1.nan-raises")
+M("C13", "M8-trade-nan-ask-unchecked", (TR, "        if np.isnan(ask_price):\n            raise ValueError(\"Missing ask price for contract {}.\".format(contract))\n", ""), "S3.trade-rejects-nan-ask")
+M("C13", "M9-mid-price-valuation", (BR, "                liq_price = (\n                    order_book.bid_price if quantity >= 0 else order_book.ask_price\n                )", "                liq_price = order_book.mid_price"), "S1.liquidation-side")
+E("C13", "E4-iterate-returned-list", (BR, "        rebalancing.trades = rebalancing.make_trades(self)\n        for trade in rebalancing.trades:\n            self.transact(trade)", "        rebalancing.trades = list()\n        for trade in rebalancing.make_trades(self):\n            self.transact(trade)\n            rebalancing.trades.append(trade)"))
+M("C13", "M11-acq-nan-mid", (EX, "        else:\n            raise ValueError(\"Unexpected sign: {}\".format(quantity))", "        else:\n            return self.mid_price"), "S3.acq-price-nan-raises")
+M("C13", "M12-trade-uses-mid", (RB, "                bid_price=broker.exchange[contract].bid_price,", "                bid_price=broker.exchange[contract].mid_price,"), "S3.trade-gets-bid_price")
+M("C13", "M13-guards-after-store", (TR, "        if np.isnan(quantity):\n            raise ValueError(\"Missing quantity for contract {}.\".format(contract))\n        if quantity == 0:", "        self.time = time\n        if np.isnan(quantity):\n            raise ValueError(\"Missing quantity for contract {}.\".format(contract))\n        if quantity == 0:"), "S3")
+M("C13", "M14-position-write-in-context", (BR, "        self.marking_to_market()\n        holdings_values = self.holdings_values(kind=\"liquidation\")", "        self.marking_to_market()\n        for c in list(self._holdings_quantity):\n            if abs(self._holdings_quantity[c]) < self._epsilon:\n                self._holdings_quantity[c] = 0.\n        holdings_values = self.holdings_values(kind=\"liquidation\")"), "S5.no-position-write-before-trades")
+M("C13", "M15-dead-book-updated", (EX, "        if book.is_alive:\n            book.update(event)", "        book.update(event)"), "S6.dead-books-silent")
+E("C13", "E1-guards-reordered", (TR, "        if np.isnan(bid_price):\n            raise ValueError(\"Missing bid price for contract {}.\".format(contract))\n        if np.isnan(ask_price):\n            raise ValueError(\"Missing ask price for contract {}.\".format(contract))\n", "        if np.isnan(ask_price):\n            raise ValueError(\"Missing ask price for contract {}.\".format(contract))\n        if np.isnan(bid_price):\n            raise ValueError(\"Missing bid price for contract {}.\".format(contract))\n"))
+E("C13", "E2-quantity-ne-zero-form", (BR, "            if quantity == 0:\n                value = 0.0\n            else:\n                order_book = self.exchange[contract]\n                liq_price = (\n                    order_book.bid_price if quantity >= 0 else order_book.ask_price\n                )\n                if np.isnan(liq_price):\n                    raise ValueError(\n                        \"Missing liquidation transaction_price for {}.\".format(contract)\n                    )\n                if kind == \"notional\":\n                    value = quantity * liq_price * contract.multiplier\n                elif kind == \"liquidation\":\n                    value = contract.cash_requirement * quantity * liq_price * contract.multiplier\n                    value += self._holdings_margins[contract]\n                else:\n                    raise ValueError(\"Unsupported 'kind'.\")\n",
+      "            value = 0.0\n            if quantity != 0:\n                order_book = self.exchange[contract]\n                liq_price = (\n                    order_book.bid_price if quantity >= 0 else order_book.ask_price\n                )\n                if np.isnan(liq_price):\n                    raise ValueError(\n                        \"Missing liquidation transaction_price for {}.\".format(contract)\n                    )\n                if kind == \"notional\":\n                    value = quantity * liq_price * contract.multiplier\n                elif kind == \"liquidation\":\n                    value = contract.cash_requirement * quantity * liq_price * contract.multiplier\n                    value += self._holdings_margins[contract]\n                else:\n                    raise ValueError(\"Unsupported 'kind'.\")\n"))
+E("C13", "E3-trades-local", (BR, "        rebalancing.trades = rebalancing.make_trades(self)\n        for trade in rebalancing.trades:\n            self.transact(trade)", "        trades = rebalancing.make_trades(self)\n        rebalancing.trades = trades\n        for trade in trades:\n            self.transact(trade)"))
